@@ -69,7 +69,7 @@ func firstCallPos(n ast.Node, suffix string) token.Pos {
 	return token.NoPos
 }
 
-func norm(s string) string { return strings.Join(strings.Fields(s), " ") }
+func normSleepcmd(s string) string { return strings.Join(strings.Fields(s), " ") }
 
 // returnsFalseOnly reports whether the block ends in "return false" (possibly after logging).
 func endsInReturn(b *ast.BlockStmt, want string) bool {
@@ -82,7 +82,7 @@ func endsInReturn(b *ast.BlockStmt, want string) bool {
 	}
 	parts := make([]string, len(r.Results))
 	for i, e := range r.Results {
-		parts[i] = norm(src(e))
+		parts[i] = normSleepcmd(src(e))
 	}
 	return strings.Join(parts, ",") == want
 }
@@ -246,7 +246,7 @@ func genC28(g *gen) {
 			verifyFirst = pv != token.NoPos && pm != token.NoPos && pf != token.NoPos && pv < pm && pm < pf
 			for _, st := range fd.Body.List {
 				if is, ok := st.(*ast.IfStmt); ok && is.Init != nil && strings.Contains(src(is.Init), "f.verify"+k+"Command(cmd)") &&
-					norm(src(is.Cond)) == "err != nil" && endsInReturn(is.Body, "false") {
+					normSleepcmd(src(is.Cond)) == "err != nil" && endsInReturn(is.Body, "false") {
 					rejectReturnsFalse = true
 				}
 			}
@@ -266,7 +266,7 @@ func genC28(g *gen) {
 				if !ok {
 					continue
 				}
-				cond := norm(src(is.Cond))
+				cond := normSleepcmd(src(is.Cond))
 				switch {
 				case cond == "f.signingPubKey == nil" && endsInReturn(is.Body, "nil"):
 					checks = append(checks, "no-key-accept")
@@ -281,7 +281,7 @@ func genC28(g *gen) {
 						if c, ok := u.X.(*ast.CallExpr); ok {
 							parts := make([]string, len(c.Args))
 							for i, a := range c.Args {
-								parts[i] = norm(src(a))
+								parts[i] = normSleepcmd(src(a))
 							}
 							verifyArgs = strings.Join(parts, ", ")
 						}
@@ -308,7 +308,7 @@ func genC28(g *gen) {
 		// the age is computed from the unsigned seconds through int64
 		ageOK := false
 		if vd != nil {
-			s := norm(src(vd.Body))
+			s := normSleepcmd(src(vd.Body))
 			ageOK = strings.Contains(s, "cmdTime := time.Unix(int64(cmd.Timestamp), 0)") && strings.Contains(s, "timeDiff := time.Since(cmdTime)") &&
 				strings.Contains(s, "if timeDiff < 0 { timeDiff = -timeDiff }")
 		}
@@ -327,7 +327,7 @@ func genC28(g *gen) {
 			for _, c := range callsIn(fd.Body) {
 				n := callName(c)
 				if (strings.HasSuffix(n, ".writeBytes") || strings.HasSuffix(n, ".writeUint64")) && len(c.Args) == 1 {
-					a := norm(src(c.Args[0]))
+					a := normSleepcmd(src(c.Args[0]))
 					a = strings.TrimSuffix(strings.TrimPrefix(a, recv+"."), "[:]")
 					fields = append(fields, a+":"+n[strings.LastIndex(n, ".")+1:])
 				}
@@ -377,7 +377,7 @@ func genFloodConsts(g *gen, pfx string) {
 	if fd := findFunc(ff, "", "NewFlooder"); fd != nil {
 		ast.Inspect(fd.Body, func(x ast.Node) bool {
 			is, ok := x.(*ast.IfStmt)
-			if ok && norm(src(is.Cond)) == "timestampWindow == 0" && len(is.Body.List) == 1 {
+			if ok && normSleepcmd(src(is.Cond)) == "timestampWindow == 0" && len(is.Body.List) == 1 {
 				if as, ok := is.Body.List[0].(*ast.AssignStmt); ok && len(as.Rhs) == 1 {
 					if v, ok := durLit(as.Rhs[0], env); ok {
 						fallback = v
@@ -446,7 +446,7 @@ func genC29(g *gen) {
 			if ix, ok := x.(*ast.IndexExpr); ok && selName(ix.X) == "f.sleepCmdSeenCache" && firstMapUse == token.NoPos {
 				firstMapUse = ix.Pos()
 			}
-			if is, ok := x.(*ast.IfStmt); ok && norm(src(is.Cond)) == "existing.SeenFrom != fromPeer" && strings.Contains(norm(src(is.Body)), "existing.SeenAt = time.Now()") {
+			if is, ok := x.(*ast.IfStmt); ok && normSleepcmd(src(is.Cond)) == "existing.SeenFrom != fromPeer" && strings.Contains(normSleepcmd(src(is.Body)), "existing.SeenAt = time.Now()") {
 				refreshOtherPeer = true
 			}
 			return true
@@ -465,10 +465,10 @@ func genC29(g *gen) {
 		arg := ""
 		for _, c := range callsIn(fd.Body) {
 			if callName(c) == "f.cleanupSleepCmdCache" && len(c.Args) == 2 {
-				arg = norm(src(c.Args[1]))
+				arg = normSleepcmd(src(c.Args[1]))
 			}
 		}
-		body := norm(src(fd.Body))
+		body := normSleepcmd(src(fd.Body))
 		env := map[string]int64{"time.Minute": 60e9, "time.Second": 1e9, "time.Hour": 3600e9, "time.Millisecond": 1e6}
 		ast.Inspect(fd.Body, func(x ast.Node) bool {
 			is, ok := x.(*ast.IfStmt)
@@ -476,10 +476,10 @@ func genC29(g *gen) {
 				return true
 			}
 			as, ok := is.Init.(*ast.AssignStmt)
-			if !ok || len(as.Lhs) != 1 || len(as.Rhs) != 1 || norm(src(as.Lhs[0])) != "minExpiry" {
+			if !ok || len(as.Lhs) != 1 || len(as.Rhs) != 1 || normSleepcmd(src(as.Lhs[0])) != "minExpiry" {
 				return true
 			}
-			if norm(src(is.Cond)) != arg+" < minExpiry" || norm(src(is.Body)) != "{ "+arg+" = minExpiry }" {
+			if normSleepcmd(src(is.Cond)) != arg+" < minExpiry" || normSleepcmd(src(is.Body)) != "{ "+arg+" = minExpiry }" {
 				return true
 			}
 			switch rhs := as.Rhs[0].(type) {
@@ -504,7 +504,7 @@ func genC29(g *gen) {
 	// cleanupSleepCmdCache: strict test, size-based part
 	strict, sizePart := false, false
 	if fd := findFunc(ff, "Flooder", "cleanupSleepCmdCache"); fd != nil && fd.Body != nil {
-		body := norm(src(fd.Body))
+		body := normSleepcmd(src(fd.Body))
 		strict = strings.Contains(body, "if now.Sub(entry.SeenAt) > expiry { delete(f.sleepCmdSeenCache, key) }")
 		sizePart = strings.Contains(body, "excess := len(f.sleepCmdSeenCache) - f.cfg.MaxSeenCacheSize") && strings.Contains(body, "if excess <= 0 { return }")
 	}
@@ -513,7 +513,7 @@ func genC29(g *gen) {
 	// cleanup loop interval
 	half := false
 	if fd := findFunc(ff, "Flooder", "cleanupLoop"); fd != nil && fd.Body != nil {
-		half = strings.Contains(norm(src(fd.Body)), "time.NewTicker(f.cfg.SeenCacheTTL / 2)")
+		half = strings.Contains(normSleepcmd(src(fd.Body)), "time.NewTicker(f.cfg.SeenCacheTTL / 2)")
 	}
 	g.line("Definition gen_c29_cleanup_every_half_ttl : bool := %s.", coqBool(half))
 	// order in the handlers (shared with C28)
@@ -546,7 +546,7 @@ func regionMarkers(stmts []ast.Stmt) []string {
 			n := callName(c)
 			switch {
 			case n == "m.state.Store" && len(c.Args) == 1:
-				out = append(out, "store:"+norm(src(c.Args[0])))
+				out = append(out, "store:"+normSleepcmd(src(c.Args[0])))
 			case strings.HasPrefix(n, "m.callbacks."):
 				out = append(out, "callback:"+strings.TrimPrefix(n, "m.callbacks."))
 			case n == "m.persistState", n == "m.schedulePollLocked", n == "m.pollTimer.Stop", n == "m.stateMu.Lock", n == "m.stateMu.Unlock", n == "time.After":
@@ -561,7 +561,7 @@ func regionMarkers(stmts []ast.Stmt) []string {
 				out = append(out, "read-wakeGen")
 			}
 			if is, ok := x.(*ast.IfStmt); ok {
-				c := norm(src(is.Cond))
+				c := normSleepcmd(src(is.Cond))
 				if strings.Contains(c, "m.wakeGen != gen") && strings.Contains(c, "StateAwake") && endsInReturn(is.Body, "nil") {
 					out = append(out, "recheck:awake-or-generation")
 				} else if strings.Contains(c, "== StateAwake") && endsInReturn(is.Body, "nil") {
@@ -642,7 +642,7 @@ func genC33(g *gen) {
 	wf := parseFile("internal/sleep/window.go")
 	body := func(recv, name string) string {
 		if fd := findFunc(wf, recv, name); fd != nil && fd.Body != nil {
-			return norm(src(fd.Body))
+			return normSleepcmd(src(fd.Body))
 		}
 		g.note("%s.%s not found", recv, name)
 		return ""
@@ -652,9 +652,9 @@ func genC33(g *gen) {
 	if fd := findFunc(wf, "", "NewWindowCalculator"); fd != nil {
 		ast.Inspect(fd.Body, func(x ast.Node) bool {
 			is, ok := x.(*ast.IfStmt)
-			if ok && norm(src(is.Cond)) == "cfg.WindowLength >= cfg.CycleLength" && len(is.Body.List) == 1 {
-				if as, ok := is.Body.List[0].(*ast.AssignStmt); ok && len(as.Rhs) == 1 && norm(src(as.Lhs[0])) == "cfg.WindowLength" {
-					if be, ok := as.Rhs[0].(*ast.BinaryExpr); ok && be.Op == token.QUO && norm(src(be.X)) == "cfg.CycleLength" {
+			if ok && normSleepcmd(src(is.Cond)) == "cfg.WindowLength >= cfg.CycleLength" && len(is.Body.List) == 1 {
+				if as, ok := is.Body.List[0].(*ast.AssignStmt); ok && len(as.Rhs) == 1 && normSleepcmd(src(as.Lhs[0])) == "cfg.WindowLength" {
+					if be, ok := as.Rhs[0].(*ast.BinaryExpr); ok && be.Op == token.QUO && normSleepcmd(src(be.X)) == "cfg.CycleLength" {
 						if v, ok := intLit(be.Y, nil); ok {
 							div = v
 						}
